@@ -26,7 +26,7 @@ FUNCTIONS = [
     "evaluation.tracker.get_number_evaluations, gp.population.Population",
 ]
 ASSUMPTIONS = [
-    "evaluation budget n symbolic in [1, N] (N = 6, thorough 10); population / neighbourhood sizes 1-3; opaque-token representation",
+    "evaluation budget n symbolic in [1, N] (N = 6; thorough tier: 10 for random search / (1+1) / hill climbing, 7-8 for the GP loops); population / neighbourhood sizes 1-3; opaque-token representation",
     "a loop-iteration fuel (is_done consulted more than 4*N+8 times) stands for non-termination; such a witness is replayed concretely with the same fuel",
     "wall-clock budgets (TimeBudget) are outside the claim",
     "loop_gp_mutation_then_tournament: the random draws are a fixed deterministic stream (tournament draws multiply paths and are not what the budget depends on); budget and population size stay symbolic",
@@ -215,9 +215,10 @@ def obligations(tier: str):
     for alg in ("rs", "1p1", "hc"):
         add("eval_budget", f"loop_{alg}", alg=alg, N=N, neigh=3)
     add("eval_budget", "loop_gp_fresh_per_generation", alg="gp", N=N, pop=3, step="freshk", kmin=1)
-    add("eval_budget", "loop_gp_mutation_step", alg="gp", N=N, pop=3, step="mutation")
-    add("eval_budget", "loop_gp_elitism_novelty_mutation", alg="gp", N=N if T else 5, pop=4, popmin=4, step="mixed")
-    add("eval_budget", "loop_gp_mutation_then_tournament", alg="gp", N=N if T else 5, pop=3, step="mutation_then_tournament", fixed_random=True)
+    NG = 8 if T else 6  # GP loops: every generation multiplies the mutation draws (N=10 did not exhaust in 2000 s)
+    add("eval_budget", "loop_gp_mutation_step", alg="gp", N=NG, pop=3, step="mutation")
+    add("eval_budget", "loop_gp_elitism_novelty_mutation", alg="gp", N=7 if T else 5, pop=4, popmin=4, step="mixed")
+    add("eval_budget", "loop_gp_mutation_then_tournament", alg="gp", N=7 if T else 5, pop=3, step="mutation_then_tournament", fixed_random=True)
     add("eval_budget", "loop_gp_mutation_then_elitism", alg="gp", N=N if T else 5, pop=3, popmin=2, step="mutation_then_elitism")
     add("eval_budget", "loop_gp_elitism_only", alg="gp", N=4, pop=2, step="elitism_only")
     for alg in ("rs", "1p1"):
